@@ -32,6 +32,7 @@ import (
 type seqOutcome struct {
 	results []string
 	final   string
+	blocked string // the sequential execution itself blocks for ever (or panics): what it said
 }
 
 type opRef struct{ t, k int }
@@ -83,14 +84,35 @@ func (c *scnCtx) sequential(order []int) seqOutcome {
 	if o, ok := c.seq[k]; ok {
 		return o
 	}
-	scn.Setup(c.fib, c.s)
 	res := make([]string, len(c.ops))
-	for _, id := range order {
-		res[id] = c.ops[id].Run(func() {})
-	}
-	o := seqOutcome{res, scn.Final()}
+	var o seqOutcome
+	func() {
+		// a lock that is never released makes a plain sequential run block: the shim reports that
+		// as a panic ("would deadlock") instead of hanging; it is a finding, not a harness error
+		defer func() {
+			if r := recover(); r != nil {
+				o = seqOutcome{blocked: fmt.Sprint(r)}
+			}
+		}()
+		scn.Setup(c.fib, c.s)
+		for _, id := range order {
+			res[id] = c.ops[id].Run(func() {})
+		}
+		o = seqOutcome{results: res, final: scn.Final()}
+	}()
 	c.seq[k] = o
 	return o
+}
+
+// safeFinal reads the final state; a lock some operation never released shows as the shim's
+// "would deadlock" panic.
+func safeFinal() (final, held string) {
+	defer func() {
+		if r := recover(); r != nil {
+			held = fmt.Sprint(r)
+		}
+	}()
+	return scn.Final(), ""
 }
 
 func kinds(s scn.Scenario) string {
@@ -130,7 +152,10 @@ func (c *scnCtx) scenario() sched.Scenario {
 			return bodies
 		},
 		Check: func(_ any, e *sched.Exec) []sched.Finding {
-			final := scn.Final()
+			final, held := safeFinal()
+			if held != "" {
+				return []sched.Finding{{Clause: "C16.deadlock", Key: c.fib + " a lock is still held after all operations returned: " + kinds(c.s), Detail: "reading the tables after the execution of " + c.s.Name + " blocks: " + held}}
+			}
 			n := len(c.ops)
 			inv, resp, res := make([]int, n), make([]int, n), make([]string, n)
 			for _, h := range e.Hist {
@@ -158,7 +183,7 @@ func (c *scnCtx) scenario() sched.Scenario {
 					}
 				}
 			}
-			finalOK, linOK := false, false
+			finalOK, linOK, seqBlocked := false, false, false
 			var firstDiff string
 			for _, ord := range c.order {
 				// real-time order
@@ -179,6 +204,17 @@ func (c *scnCtx) scenario() sched.Scenario {
 					continue
 				}
 				o := c.sequential(ord)
+				if o.blocked != "" {
+					if !seqBlocked {
+						seqBlocked = true
+						clause, what := "C16.deadlock", "blocks for ever"
+						if !strings.Contains(o.blocked, "would deadlock") {
+							clause, what = "C16.crash", "panics"
+						}
+						fs = append(fs, sched.Finding{Clause: clause, Key: c.fib + " a sequential execution " + what + ": " + kinds(c.s), Detail: fmt.Sprintf("running the operations of %s one after the other in order %v %s: %s", c.s.Name, ord, what, o.blocked)})
+					}
+					continue
+				}
 				if o.final != final {
 					continue
 				}
@@ -196,6 +232,9 @@ func (c *scnCtx) scenario() sched.Scenario {
 					linOK = true
 					break
 				}
+			}
+			if seqBlocked {
+				return fs
 			}
 			if !finalOK {
 				fs = append(fs, sched.Finding{Clause: "C16.final", Key: c.fib + " final tables match no sequential order: " + kinds(c.s), Detail: "final state " + final + " equals the outcome of no real-time-consistent sequential order of " + c.s.Name})
